@@ -149,6 +149,9 @@ pub fn install_panic_hook() {
         } else {
             "non-string panic payload".to_string()
         };
+        if std::env::var_os("WACSIM_BT").is_some() {
+            eprintln!("panic at {location}: {message}\n{}", std::backtrace::Backtrace::force_capture());
+        }
         *LAST_PANIC.lock().unwrap() = Some(PanicInfo { message, location });
     }));
 }
